@@ -35,6 +35,11 @@ CMPS = ["==", "!=", "<", "<=", ">", ">="]
 FIXED_VALUES = [0.0, 1.0, -1.0, 1000.0, 0.001, 0.1, 3.7, 7]          # 7 is an int
 
 
+# display values the rounding helpers are tried on: integers, neighbours of integers, ties, small and large magnitudes
+ROUND_VALUES = [6, 7.0, -3, 0.0, 1, 100.0, 5.999999999999999, 6.000000000000001, 2.9999999999999996, -0.9999999999999999,
+                0.5, 1.5, 2.5, -2.5, 3.5, -0.5, 0.49999999999999994, 12345.678, -7.25, 1e-9, 4503599627370497.0, 1e17]
+
+
 def num(v) -> dict:
     d = {"t": "num", "v": UU.fhex(v)}
     if type(v) is int:
@@ -97,6 +102,12 @@ def gen_cases(ctx, rng: random.Random, tier: str):
             for op in ("neg", "abs", "pos"):
                 add("unary", {"k": "un", "op": op, "x": qspec(cls, unit, rng.choice([a, -abs(a), 0.0]))})
             add("as_unit", {"k": "as_unit", "x": qspec(cls, unit, a), "unit": other})
+        # the rounding helpers on integral, near-integral and half-way display values of every unit
+        for ui, unit in enumerate(units):
+            pool = ROUND_VALUES if tier != "quick" else [ROUND_VALUES[(ui * 3 + len(cls) + j) % len(ROUND_VALUES)] for j in range(2)]
+            for v in pool:
+                for op in ("floor", "ceil", "trunc", "round"):
+                    add("round", {"k": "round", "op": op, "x": qspec(cls, unit, v)})
         # malformed: undeclared unit, non-number value, bool, missing value
         base = ctx.dump["classes"][ctx.index[cls]]["base"]
         bad_units = ["", "no-such-unit", base + " ", units[-1].upper() + "?"]
@@ -130,7 +141,7 @@ def oracle(ctx, spec, out, ops, raw):
                 f"could not build the operand of {spec}: {out['setup_failed']}")
     if "bad" in out:
         return ("malformed-result:" + k, f"{spec}: result {out['bad']}")
-    if k in ("bin", "un") and ("operand_changed" in out or "second_differs" in out):
+    if k in ("bin", "un", "round") and ("operand_changed" in out or "second_differs" in out):
         cls = ops[0].get("cls", ops[0]["t"]) if ops else "?"
         if "operand_changed" in out:
             return (f"operation-changes-its-operand:{spec['op']}:{cls}",
@@ -220,6 +231,32 @@ def oracle(ctx, spec, out, ops, raw):
             return None if ok else (f"add-sub-wrong:{x['cls']}", f"{x} {op} {y} gave {out}; SI values give {ev!r} in unit {x['unit']!r}")
         ev = {"==": fx == fy, "!=": fx != fy, "<": fx < fy, "<=": fx <= fy, ">": fx > fy, ">=": fx >= fy}[op]
         return None if out.get("bool") is ev else (f"compare-wrong:{x['cls']}", f"{x} {op} {y} gave {out}, SI values give {ev}")
+    if k == "round":
+        # clause: the rounding helpers work on the REPORTED display value and keep the unit
+        x = ops[0]
+        op = spec["op"]
+        if x["t"] == "si":
+            r = {"floor": math.floor, "ceil": math.ceil, "trunc": math.trunc, "round": round}[op](UU.unhex(x["si"]))
+            ok = "val" in out and out["val"].get("sig") == x["sig"] and out["val"]["si"] == UU.fhex(float(r))
+            return None if ok else (f"rounding-wrong:{op}:SI", f"{op} of {x} gave {out}, expected SI value {float(r)!r}")
+        cls = getattr(U, x["cls"])
+        f = cls._units[x["unit"]]
+        dv = UU.unhex(x["si"]) / f                       # what q.displayvalue reports
+        r = {"floor": math.floor, "ceil": math.ceil, "trunc": math.trunc, "round": round}[op](dv)
+        if "val" not in out:
+            return (f"rounding-raises:{op}:{x['cls']}:{x['unit']}", f"{op}({x}) (display value {dv!r}) gave {out}")
+        v = out["val"]
+        if v.get("cls") != x["cls"] or v.get("unit") != x["unit"]:
+            return (f"rounding-changes-type-or-unit:{op}:{x['cls']}:{x['unit']}", f"{op}({x}) returned {v}")
+        if v["si"] != UU.fhex(r * f):
+            got = UU.unhex(v["si"]) / f
+            return (f"rounding-not-on-display-value:{op}:{x['cls']}:{x['unit']}",
+                    f"{op}({x['cls']} with display value {dv!r} {x['unit']}) has display value {got!r}; {op} of the reported "
+                    f"display value is {r!r} (SI value {UU.unhex(v['si'])!r}, expected {r * f!r})")
+        if not ulps_close((r * f) / f, float(r)):
+            return (f"rounded-display-value-not-integral:{op}:{x['cls']}:{x['unit']}",
+                    f"{op}({x}) = {r!r} {x['unit']} but the result reports the display value {(r * f) / f!r}")
+        return None
     if k == "un":
         x = ops[0]
         fx = UU.unhex(x["si"])
@@ -479,7 +516,10 @@ def main(tier: str) -> int:
 
     run.cov["evaluations"] = len(cases)
     run.cov["distinct_nontrivial"] = len(nontrivial)
-    run.cov["rule"] = ("every (class, declared unit) x values {0, +-1, 1000, 0.001, 0.1, 3.7, int 7, random magnitudes 1e-6..1e9} "
+    run.cov["rule"] = ("math.floor / ceil / trunc / round on every (class, declared unit) x integral, near-integral and half-way "
+                       "display values (bit-exact against Units.Dispatch.round_eval and against the clause `rounding of the "
+                       "reported display value, unit kept`); "
+                       "every (class, declared unit) x values {0, +-1, 1000, 0.001, 0.1, 3.7, int 7, random magnitudes 1e-6..1e9} "
                        "(quick: a rotating subset of the fixed values per unit): construction, display value, str/repr, unit, si, "
                        "re-expression in every unit of the class, comparisons / + - / neg abs pos between two units of the class, "
                        "refused constructions; non-trivial = distinct (class, unit) with factor != 1 that was constructed with a "
@@ -513,7 +553,15 @@ def main(tier: str) -> int:
     phase["run_implementation_and_oracle"] = round(_t.time() - _t0, 1)
     _t0 = _t.time()
     # ---- model vs implementation inside coqc
-    mism, err = UU.run_correspondence(run, ctx, cases)
+    idx_round = [i for i, cs in enumerate(cases) if cs["spec"]["k"] == "round"]
+    idx_main = [i for i, cs in enumerate(cases) if cs["spec"]["k"] != "round"]
+    mism_main, err = UU.run_correspondence(run, ctx, [cases[i] for i in idx_main])
+    mism = [idx_main[j] for j in mism_main]
+    if not err:
+        # the rounding helpers: Units.Dispatch.round_eval with the binary64 roundings float_math
+        mism_r, err = UU.run_round_correspondence(run, ctx, [cases[i] for i in idx_round])
+        mism = sorted(mism + [idx_round[j] for j in mism_r])
+    run.cov["rounding_helper_cases"] = len(idx_round)
     if err:
         run.violation("correspondence-not-evaluable", "coqc could not evaluate the C17 correspondence (Units.Dispatch.eval): " + err,
                       {}, found_input=False)
